@@ -1,27 +1,24 @@
 (** C01 — pairwise reconciliation converges to the join.
 
-    Proved, for every pair of reduced sorted replicas without twin-len pairs, every split factor
-    >= 2, every maximal set size, every initiator: WHENEVER the session completes, both sides
-    hold exactly [join A B] ([C01_session_reaches_join]; the invariant is "every maximal entry of
-    the union is held by both sides or lies in the range of an honest part in flight", and the
-    split of a range is shown to cover the range for every range shape: plain, wrap-around,
-    whole ring). Also, for every message (hostile ones included), store content and
-    configuration:
-      - soundness of every step: after processing a message a replica holds exactly
-        [reduce (valid values of the message ++ what it held)];
-      - a replica answers a fingerprint that equals its own with silence (second session);
-      - the two sides' sent/received counters mirror each other after any complete session.
-    And for the split factor the crate uses (2: [SyncConfig] is crate-private, only its default
-    is ever constructed), every maximal set size: the session terminates within |A|+|B|+3
-    processing steps (every reply ranks strictly below the message it answers, a fingerprint part
-    ranking by the number of entries of the union inside its range) and leaves both sides with
-    the join — the full statement ([C01_session_total]).
-    PARTIAL for split factors > 2 only: termination is not proved there (a range whose first
-    local element sits exactly at the range start and holds fewer elements than the split factor
-    produces the whole-ring range (x, x) as its first sub-range, so the count measure does not
-    decrease; exhaustive small-scope evaluation of the model and the correspondence runs with
-    split factors 3..5 show termination, a proof would need a different measure). *)
-From ID Require Import Base.Bytes Model.Entry Model.Ranger Model.Put Proofs.RangerFacts Proofs.ConvergeFacts Proofs.SplitFacts Proofs.SessionConverge Proofs.TerminateFacts Proofs.FsPutFacts Proofs.RefineFacts Proofs.SessionRefine.
+    Proved (no part of the statement is left to testing), for every pair of reduced sorted
+    replicas without twin-len pairs (the recorded known finding), every split factor >= 2, every
+    maximal set size, either initiator:
+      - the session terminates within [steps_bound A B] processing steps
+        ([C01_session_total_all]; measure: the number of maximal entries of the union not yet held
+        by both sides, then the least rank among the parts in flight covering the first such entry
+        — an answer ranks 0, a request 1, a fingerprint part by the number of union entries in
+        its range, the whole ring above all). For the crate's own split factor 2 the sharper
+        bound |A|+|B|+3 holds ([C01_session_total]);
+      - it leaves both sides equal, holding exactly [join A B] (invariant: every maximal entry
+        of the union is held by both sides or lies in the range of an honest part in flight; the
+        split of a range covers the range for plain, wrap-around and whole-ring ranges);
+      - an immediately following session is one silent message ([C01_second_session_silent]);
+      - sent and received counters mirror each other ([C01_counts_mirror]).
+    The same is stated for the table-level stores the real sessions are compared with
+    ([C01_table_session_total_all]) and end to end from offer histories
+    ([C01_histories_then_session]). For hostile messages: step soundness
+    ([C01_step_content_partial] — "partial" in the name refers to the single step). *)
+From ID Require Import Base.Bytes Model.Entry Model.Ranger Model.Put Proofs.RangerFacts Proofs.ConvergeFacts Proofs.SplitFacts Proofs.SessionConverge Proofs.TerminateFacts Proofs.TerminateAll Proofs.FsPutFacts Proofs.RefineFacts Proofs.SessionRefine.
 From ID Require Import Model.Tables Model.Bounds Model.FsStore.
 
 Theorem C01_step_content_partial : forall mss k status_of v S m,
@@ -71,6 +68,40 @@ Theorem C01_session_total : forall mss v A B,
     (forall x, In x A' <-> In x (join A B)) /\ (forall x, In x B' <-> In x (join A B)) /\
     ssorted A' /\ ssorted B'.
 Proof. exact list_session_total. Qed.
+
+(** the full statement for EVERY split factor >= 2 and every maximal set size *)
+Theorem C01_session_total_all : forall mss k v A B,
+  2 <= k -> ssorted A -> ssorted B -> reduced A -> reduced B -> consistent (A ++ B) ->
+  (forall e, In e (A ++ B) -> v e MISSING = true) ->
+  exists A' B' tr,
+    list_session mss k v (steps_bound A B) A B (initial_message om_ops A) true [] = Some (A', B', tr) /\
+    (forall x, In x A' <-> In x (join A B)) /\ (forall x, In x B' <-> In x (join A B)) /\
+    ssorted A' /\ ssorted B'.
+Proof. exact list_session_total_all. Qed.
+Check (eq_refl : steps_bound = fun A B => ((length (reduce (A ++ B)) + 1) * (length (A ++ B) + 6) + 3)%nat).
+
+(** both sides end equal as lists and a session right afterwards is a single unanswered message *)
+Theorem C01_second_session_silent : forall mss k v A B,
+  2 <= k -> ssorted A -> ssorted B -> reduced A -> reduced B -> consistent (A ++ B) ->
+  (forall e, In e (A ++ B) -> v e MISSING = true) ->
+  exists A' tr,
+    list_session mss k v (steps_bound A B) A B (initial_message om_ops A) true [] = Some (A', A', tr) /\
+    (forall x, In x A' <-> In x (join A B)) /\
+    forall fuel, list_session mss k v (S fuel) A' A' (initial_message om_ops A') true [] = Some (A', A', []).
+Proof. exact list_session_total_all_equal. Qed.
+
+Theorem C01_table_session_total_all : forall EH MAXF mss k now ns TA TB,
+  2 <= k -> wf_records TA -> wf_records TB ->
+  let A := fs_all ns TA in let B := fs_all ns TB in
+  reduced A -> reduced B -> consistent (A ++ B) ->
+  (forall e, In e (A ++ B) -> vsync EH MAXF now ns e MISSING = true) ->
+  exists TA' TB' ocA ocB tr,
+    session prefix_succ EH MAXF mss k (steps_bound A B) now ns ns TA TB (mkOC 0 0) (mkOC 0 0)
+            (initial_message (fs_ops prefix_succ EH ns) TA) true [] = Some (TA', TB', ocA, ocB, tr) /\
+    (forall x, In x (fs_all ns TA') <-> In x (join A B)) /\
+    (forall x, In x (fs_all ns TB') <-> In x (join A B)) /\
+    fs_all ns TA' = fs_all ns TB'.
+Proof. exact table_session_total_all. Qed.
 
 (** the same for the table-level stores the real sessions are compared with message by message
     (several documents in one records table, scans through computed bounds): the session
@@ -143,6 +174,9 @@ Proof. vm_compute. repeat split; auto. Qed.
 Print Assumptions C01_session_reaches_join.
 Print Assumptions C01_session_total.
 Print Assumptions C01_table_session_total.
+Print Assumptions C01_session_total_all.
+Print Assumptions C01_second_session_silent.
+Print Assumptions C01_table_session_total_all.
 Print Assumptions C01_histories_then_session.
 Print Assumptions C01_histories_hypotheses_hold.
 Print Assumptions C01_split_covers_range.
